@@ -32,7 +32,7 @@ BUDGET = {
     'C08': {'quick': {'plain': 200000, 'asan': 16000}, 'thorough': {'plain': 3000000, 'asan': 300000}},
     'C09': {'quick': {'plain': 200000, 'asan': 16000}, 'thorough': {'plain': 3000000, 'asan': 300000}},
     'C10': {'quick': {'plain': 200000, 'asan': 16000}, 'thorough': {'plain': 3000000, 'asan': 300000}},
-    'C14': {'quick': {'plain': 16000, 'asan': 3000}, 'thorough': {'plain': 200000, 'asan': 40000}},
+    'C14': {'quick': {'plain': 16000, 'asan': 3000}, 'thorough': {'plain': 100000, 'asan': 20000}},
     'C15': {'quick': {'plain': 16000, 'tsan': 3000, 'asan': 2000}, 'thorough': {'plain': 300000, 'tsan': 80000, 'asan': 30000}},
     'C16': {'quick': {'plain': 16000, 'asan': 2500}, 'thorough': {'plain': 250000, 'asan': 40000}},
     'C18': {'quick': {'plain': 300000, 'asan': 20000}, 'thorough': {'plain': 4000000, 'asan': 400000}},
